@@ -107,3 +107,54 @@ extern "C" void h_teb_bmc()
   }
   VWITNESS(expansions >= 1 && shrinks >= 1);
 }
+
+// (life cycle) the ring built by the REAL constructor from a requested capacity that need not be a power of two:
+// fill past the capacity (expansion), drain, request a shrink, shrink, then fill and drain again.  Contents symbolic,
+// control concrete.  "Shrinking loses nothing" (C20) and FIFO (C03) for every requested capacity, not only 2^k.
+#ifndef ICAP
+  #define ICAP 3
+#endif
+static void push_n(TransitEventBuffer& b, uint32_t n)
+{
+  for (uint32_t i = 0; i < n; i++)
+  {
+    TransitEvent* e = b.back();
+    VASSERT(e != nullptr);
+    uint64_t id = vnd_u64(); e->timestamp = id; g_ids[g_tail++] = id;
+    b.push_back();
+    VASSERT(b.size() == g_tail - g_head);
+    VASSERT(b.capacity() >= b.size());
+  }
+}
+static void pop_n(TransitEventBuffer& b, uint32_t n)
+{
+  for (uint32_t i = 0; i < n; i++)
+  {
+    TransitEvent* f = b.front();
+    VASSERT(f != nullptr);
+    if (!f) return;
+    VASSERT(f->timestamp == g_ids[g_head]); vobs(f->timestamp);
+    g_head++; b.pop_front();
+  }
+}
+extern "C" void h_teb_life()
+{
+  TransitEventBuffer b(ICAP);
+  size_t const c0 = b.capacity();
+  VASSERT(c0 >= ICAP && c0 < 2 * ICAP);              // room for what was asked for, less than twice as much
+  uint32_t const n0 = static_cast<uint32_t>(c0);
+  push_n(b, n0 + 1);                                  // one more than fits: the ring grows, order kept
+  VASSERT(b.capacity() > c0);
+  pop_n(b, 1);
+  push_n(b, 1);                                       // positions past the start of the grown ring
+  pop_n(b, n0 + 1);
+  VASSERT(b.empty());
+  b.request_shrink(); b.try_shrink();
+  VASSERT(b.capacity() == c0);                        // the shrink takes effect: back to the starting capacity
+  push_n(b, n0);                                      // a full starting ring again (no slot aliasing) ...
+  pop_n(b, 1);
+  push_n(b, 2);                                       // ... and growth from the shrunk ring
+  pop_n(b, n0 + 1);
+  VASSERT(b.empty() && g_head == g_tail);
+  VWITNESS(b.capacity() > c0);
+}
